@@ -168,22 +168,22 @@ struct Reg
           continue;
         if (T != 3 && n == 6)
           continue;
-        int bq = T == 1 ? 1 : (T == 2 ? (n <= 3 ? 3 : 2) : (n <= 3 ? 2 : (n == 6 ? 1 : -1)));
-        int bt = T == 1 ? 2 : (T == 2 ? (n <= 3 ? 4 : 3) : (n <= 3 ? 3 : 2));
+        int bq = T == 1 ? 1 : (T == 2 ? (n <= 3 ? 4 : 3) : (n <= 1 ? 3 : (n <= 3 ? 2 : (n == 6 ? 1 : -1))));
+        int bt = T == 1 ? 2 : (T == 2 ? (n <= 3 ? 5 : 4) : (n <= 3 ? 4 : 3));
         add("pf_T" + std::to_string(T) + "_n" + std::to_string(n), bq, bt);
       }
     }
-    add("pf_T2_n-1", 2, 3);
-    add("pfll_T2_n-1", 2, 3);
-    add("pfu8_T2_n3", 2, 3);
-    add("pfsz_T2_n3", 2, 3);
-    add("nest_T2_2x2", 2, 3);
-    add("nest_T2_2x3", -1, 2);
-    add("nest_T3_2x2", 1, 2);
-    add("each_T2_n3", 2, 3);
-    add("blk_T2_n5", 2, 3);
-    add("blk_T2_n4", -1, 3);
-    add("twice_T2_n3", 2, 3);
+    add("pf_T2_n-1", 3, 4);
+    add("pfll_T2_n-1", 3, 4);
+    add("pfu8_T2_n3", 3, 4);
+    add("pfsz_T2_n3", 3, 4);
+    add("nest_T2_2x2", 2, 4);
+    add("nest_T2_2x3", -1, 3);
+    add("nest_T3_2x2", 2, 3);
+    add("each_T2_n3", 2, 4);
+    add("blk_T2_n5", 3, 4);
+    add("blk_T2_n4", -1, 4);
+    add("twice_T2_n3", 2, 4);
   }
 };
 static Reg reg;
